@@ -40,7 +40,7 @@ REQUIRE_CLAUSES_ALL = ["bs_within_limits", "bs_aims_at_bp_per_bin", "bs_higher_d
                    "it_one_per_subclone", "pt_fields", "up_name", "ip_rows", "ip_log2", "ip_warning", "mt_rows",
                    "mt_segments", "mt_stdev", "mt_mad", "mt_iqr", "mt_bivar", "mt_mismatch_rejected", "snp_rows"]
 
-REQUIRE_CLAUSES = REQUIRE_CLAUSES_ALL
+REQUIRE_CLAUSES = list(REQUIRE_CLAUSES_ALL)
 
 # Findings of this extension that main has not yet triaged.  They are NOT applied by default (known findings live in
 # /verif/known_findings.json only); X03_PROPOSED_KNOWN=1 applies the proposed entries for a demonstration run.
@@ -1012,8 +1012,16 @@ def run(ctx: Ctx):
     if os.environ.get("X03_PROPOSED_KNOWN") == "1":
         have = {e["id"] for e in ctx.known}
         ctx.known += [e for e in PROPOSED_KNOWN if e["id"] not in have]
-    n_ab = run_autobin(ctx, thorough)
-    n_th = run_theta(ctx, thorough)
+    only = os.environ.get("X03_ONLY", "")            # development aid (mutant runs): "autobin" or "theta"
+    n_ab = n_th = 0
+    if only != "theta":
+        n_ab = run_autobin(ctx, thorough)
+    if only != "autobin":
+        n_th = run_theta(ctx, thorough)
+    if only:
+        keep = ("bs_", "ms_", "ab_") if only == "autobin" else ("et_", "it_", "pt_", "up_", "ip_", "mt_", "snp")
+        REQUIRE_CLAUSES[:] = [c for c in REQUIRE_CLAUSES if c[:3] in keep]
+        ctx.notes["partial_run"] = only
     ctx.exhaustive = (f"MC_Autobin: {n_ab} enumerated inputs; MC_Theta: {n_th} enumerated inputs -- every dumped state "
                       "replayed into the real code")
 
